@@ -95,12 +95,19 @@ func runC07(c *core.Ctx) {
 	defer restore()
 	long := c.Config == "long"
 	nth := 2 + t.Intn(5)
+	crowd := t.Chance(1, 6) // many callers at once: windows that need 6 or more threads inside them
+	if crowd {
+		nth = 6 + t.Intn(7)
+	}
 	den := uint64([]int{4, 2, 16, 1, 64}[t.Intn(5)])
 	if long {
 		nth = 4
 		den = uint64([]int{256, 1024, 64}[t.Intn(3)])
 	}
 	sim := newSchedSim(c, den)
+	if crowd && t.Chance(1, 2) {
+		sim.lockstep = 1 + t.Intn(4)
+	}
 	// start value
 	random := !long && t.Chance(1, 5)
 	var start uint16
@@ -113,6 +120,9 @@ func runC07(c *core.Ctx) {
 		switch t.Weighted(2, 2, 1, 1, 1, 1, 2) {
 		case 0:
 			start = uint16(65535 - t.Intn(6))
+			if crowd {
+				start = uint16(65535 - t.Intn(16))
+			}
 		case 1:
 			start = uint16(t.Intn(3))
 		case 2:
@@ -168,6 +178,9 @@ func runC07(c *core.Ctx) {
 	var pktMismatch bool
 	for i := 0; i < nth; i++ {
 		nops := 1 + t.Intn(12)
+		if crowd {
+			nops = 1 + t.Intn(3)
+		}
 		if long {
 			nops = 300 + t.Intn(900)
 			if c.Tier == "thorough" && t.Chance(1, 8) {
